@@ -237,10 +237,11 @@ def callee_name(x):
     return None
 
 
-def walk(e):
+def walk(e, skip=()):
     """pre-order over all expression nodes below e (inclusive).  A call to a function that did not exist at the pinned commit (a helper some
-    clean-up extracted) is followed into that function's body: what a rule looks for "inside f" is still inside f after part of f was given a name."""
-    stack = [(e, ())]
+    clean-up extracted) is followed into that function's body: what a rule looks for "inside f" is still inside f after part of f was given a name.
+    `skip`: names not to follow (the function whose own body is being walked, when it is such a helper and calls itself)."""
+    stack = [(e, tuple(skip))]
     callee_paths = set()
     while stack:
         x, active = stack.pop()
@@ -262,10 +263,10 @@ def walk(e):
         stack.extend(reversed([(c, active) for c in cs] + extra))
 
 
-def walk_block(stmts):
+def walk_block(stmts, skip=()):
     for s in stmts or []:
         for e in stmt_exprs(s):
-            yield from walk(e)
+            yield from walk(e, skip)
 
 
 def expr_text(e, depth=0):
